@@ -179,6 +179,58 @@ example : ((((Forest.init [.coll, .coll, .src, .sens]).step (.add 1 [3] false)).
     (.add 1 [0] true)).2 = false := by decide
 
 
+/-- ALL-OR-NOTHING SETTERS (true since repo fix 9176cc9; before it a refused assignment left the collection emptied
+and the old children parentless).  In every state reachable by any history of add / remove / parent= / the four
+setters / `+` / copy(), a REJECTED assignment `c.children = objs`, `c.sources = objs`, `c.sensors = objs` or
+`c.collections = objs` — an entry that is no magpylib object, the collection itself or one of its ancestors, an
+entry given twice, … — leaves the WHOLE forest identical: every parent pointer, every children list, every stored
+typed view, of every object.  The model follows `_replace_children` statement by statement (unlink the old
+children, filter `_children`, refresh the views, try `add`, on the exception put the old list back, re-parent,
+refresh); that the restore reproduces the state exactly uses the consistency of the state before
+(`restore_unlinked`: the removed children's parent WAS the collection, the views WERE the typed filters). -/
+theorem setter_rejected_changes_nothing (kinds : List Kind) (ops : List COp) (c : Nat) :
+    let s := ops.foldl (fun s op => (s.stepC op).1) (Forest.init kinds)
+    (∀ objs, (s.step (.setChildren c objs)).2 = false → (s.step (.setChildren c objs)).1 = s) ∧
+    (∀ k objs, (s.step (.setTyped c k objs)).2 = false → (s.step (.setTyped c k objs)).1 = s) := by
+  intro s
+  have hi : s.Inv := (inv_reachable_with_copy kinds ops).1
+  obtain ⟨h1, h2⟩ := setter_rejected_unchanged s hi c
+  constructor
+  · intro objs hr
+    simp only [step] at hr ⊢
+    split
+    · rename_i hk; rw [if_pos hk] at hr; exact h1 objs hr
+    · rfl
+  · intro k objs hr
+    simp only [step] at hr ⊢
+    split
+    · rename_i hk; rw [if_pos hk] at hr; exact h2 k objs hr
+    · rfl
+
+/-- the same for any consistent state (not only reachable ones), together with what a refusal IS in the model:
+the `add` of the new children onto the unlinked state is refused, or (typed setters) the input formatting raises -/
+theorem setter_rejected_changes_nothing_of_inv (s : Forest) (hi : s.Inv) (c : Nat) :
+    (∀ objs, (s.setChildren c objs).2 = false → (s.setChildren c objs).1 = s) ∧
+    (∀ k objs, (s.setTyped c k objs).2 = false → (s.setTyped c k objs).1 = s) :=
+  setter_rejected_unchanged s hi c
+
+-- non-vacuity: collection 0 = [source 2, collection 1 = [sensor 3]].
+-- `c0.children = [source 2, 900]` (900 is no object: a junk entry) is refused AFTER the children were unlinked, and
+-- nothing has changed; the same for the collection itself, a child given twice, and `c1.collections = [c0]` (its ancestor);
+-- an accepted assignment does change the state
+example :
+    let s := demoC11
+    (s.step (.setChildren 0 [2, 900])).2 = false ∧ (s.unlinked 0 (s.children 0)).children 0 = [] ∧
+    (s.unlinked 0 (s.children 0)).parent 2 = none ∧
+    (s.step (.setChildren 0 [2, 900])).1.children 0 = [2, 1] ∧ (s.step (.setChildren 0 [2, 900])).1.parent 2 = some 0 ∧
+    (s.step (.setChildren 0 [2, 900])).1.srcs 0 = [2] ∧ (s.step (.setChildren 0 [2, 900])).1.colls 0 = [1] ∧
+    (s.step (.setChildren 0 [0])).2 = false ∧ (s.step (.setChildren 0 [2, 2])).2 = false ∧
+    (s.step (.setTyped 1 .coll [0])).2 = false ∧ (s.step (.setTyped 1 .coll [0])).1.children 1 = [3] ∧
+    (s.step (.setTyped 0 .sens [3, 900])).2 = false ∧
+    (s.step (.setChildren 0 [1, 2])).2 = true ∧ (s.step (.setChildren 0 [1, 2])).1.children 0 = [1, 2] ∧
+    (s.step (.setTyped 0 .src [1])).2 = true ∧ (s.step (.setTyped 0 .src [1])).1.children 0 = [1] := by
+  decide
+
 /-- (added by the audit) `views_are_partitions` above only says "in at least one view" and "each view is a sublist";
 this is the full clause of the property: the stored `_sources` / `_sensors` / `_collections` ARE the ordered typed
 filters of `_children` (same order, same multiplicity), hence pairwise disjoint — every child appears in exactly
